@@ -109,6 +109,25 @@ def gen(rng, shape=None):
         imps = sorted({owner[c] for f in fs for c in _callees(f)})
         sp.roots.append(("top%d" % ri, fs, imps, gl))
         root_funcs_all.extend(fs)
+    # one function name overloaded across module boundaries: the library declares ov(int), a root declares ov(float)
+    # and calls the name with an int (exact match = the imported overload) and with a float (its own)
+    extra = []
+    if rng.random() < 0.5:
+        ov_i = Func("ov", [(INT, "a")], INT, Block([Return(B("+", B("*", V("a", INT), IntLit(7)), IntLit(1000)))]), False)
+        ov_f = Func("ov", [(FLOAT, "a")], FLOAT, Block([Return(B("+", B("*", V("a", FLOAT), FloatLit(0.5)), FloatLit(2000.0)))]), False)
+        lname, lfs, limps = sp.libs[0]
+        lfs.append(ov_i)
+        rname, rfs, rimps, rgl = sp.roots[0]
+        x = V("x", INT)
+        caller = Func("ovcall", [(INT, "x")], FLOAT, Block([Return(B("+", Call("ov", [x], INT, ov_i), Call("ov", [B("*", x, FloatLit(1.5))], FLOAT, ov_f)))]), True)
+        rfs.insert(0, ov_f)
+        rfs.append(caller)
+        if lname not in rimps:
+            rimps.append(lname)
+            rimps.sort()
+        extra = [ov_i, ov_f, caller]
+        root_funcs_all.append(caller)
+        funcs = funcs + [ov_i, ov_f]
     sp.union = Module(globals=[g for _, _, _, gl in sp.roots for g in gl], funcs=funcs + root_funcs_all)
     # source texts with import placement variants
     for name, fs, imps in sp.libs:
